@@ -286,7 +286,11 @@ namespace embedded_pairing::wkdibe {
                 }
             }
 
-            if (!add_to) {
+            /*
+             * Like nondelegable_qualifykey: a target list that omits all
+             * unnamed slots leaves no free slot in the key.
+             */
+            if (!add_to && !to.omitAllFromKeysUnlessPresent) {
                 sk.b[x].idx = parent.b[i].idx;
                 sk.b[x].hexp.copy(parent.b[i].hexp);
                 x++;
